@@ -168,11 +168,12 @@ SORTS = {'int': I, 'real': R, 'bool': B, 'str': Str, 'cls': Cls}
 
 class Arr:
     """1-D numpy array / list / tuple of symbolic length: contents a: Int->elem, length n"""
-    def __init__(self, elem, a, n, flavour='ndarray'):
+    def __init__(self, elem, a, n, flavour='ndarray', width=None):
         self.elem, self.a, self.n, self.flavour = elem, a, n, flavour
+        self.width = width       # numpy fixed-width string arrays ('U<n>'): z3 Int, None otherwise
 
     def replace(self, a=None, n=None):
-        return Arr(self.elem, self.a if a is None else a, self.n if n is None else n, self.flavour)
+        return Arr(self.elem, self.a if a is None else a, self.n if n is None else n, self.flavour, self.width)
 
 
 class Dict:
